@@ -90,6 +90,7 @@ type Scenario struct {
 	Foreign     []vnet.ForeignPort `json:"foreign,omitempty"`
 	Faults      []vnet.Fault       `json:"faults,omitempty"`
 	Checkpoints bool               `json:"checkpoints,omitempty"` // single task: quiesce + count goroutines/sockets after every step
+	ParseDates  bool               `json:"parsedates,omitempty"`  // the harness builds date arguments with types.ParseDate instead of types.ToDate
 	Tape        []int              `json:"tape,omitempty"`
 	UseTape     bool               `json:"usetape,omitempty"`
 }
